@@ -29,12 +29,12 @@ CHECKS = {
          "DESIGN.md §5 S-LINK / C06"),
  "C19": ("exploration",
          "deterministic simulation over long hostile/clean traffic histories with a counting allocator (SUT/SIM domain tags) as observation point, measured after every poll",
-         "Seeded exploration of long traffic histories (hundreds to tens of thousands of link frames per run, hostile and clean, incl. abandoned 4096-frame announcements and real 4096-frame packets) under seeded polling schedules; SUT-domain heap bytes are measured after every poll and the largest single SUT allocation during every poll. Oracle: bounded by fresh + constant + 96 B x announced size between polls, no more than a fresh receiver right after a delivery or reassembly error, no single allocation beyond what a one-byte length can announce unless explained by the packet in flight; nothing left when the receiver is dropped.",
+         "Seeded exploration of long traffic histories (hundreds to tens of thousands of link frames per run, hostile and clean, incl. abandoned 4096-frame announcements and real 4096-frame packets) under seeded polling schedules; SUT-domain heap bytes are measured after every poll and the largest single SUT allocation during every poll. Oracle: bounded by fresh + constant + 96 B x announced size between polls, no more than a fresh receiver right after a delivery or reassembly error, no single allocation beyond what a one-byte length can announce unless explained by the packet in flight (judged even for a poll that never returns); never more than 4096 frames taken into one packet (over-long packets using the reserved id bit are generated); USART/serial device read errors injected at framing-aligned positions; nothing left when the receiver is dropped.",
          "Trusted: the counting allocator's domain attribution (devices and harness switch to SIM on entry); bounds are deliberately loose in the constant factors (36 B per frame real vs 96 B allowed). Not a proof.",
          "DESIGN.md §5 S-LINK / C19"),
  "C14": ("fault_enumeration",
          "deterministic simulation of the transmit-side devices: exhaustive single-fault placement (would-block burst, short write of every size, Interrupted, hard error, flush error, displaced frame at every device call) plus seeded random reaction sequences",
-         "For a fixed packet list x 3 links every single fault position is enumerated after a dry run that counts the device calls (exhaustive over that list only); on top, seeded exploration with random packets up to 4096 frames and random reaction mixes. Oracle: the stream the device accepted is always a prefix of the packet's frames (the library's own fragmenter/encoders define them), equal to it whenever Ok is returned; write/flush failures and displaced frames yield Err; delays and partial writes alone never make the call fail or block. Found and led to the repair of the short-write defect (known_findings.txt).",
+         "For a fixed packet list x 3 links every single fault position is enumerated after a dry run that counts the device calls (exhaustive over that list only); on top, seeded exploration with random packets up to 4096 frames and random reaction mixes. A run sends one packet or a short sequence of related packets through the same sender object. Oracle: the stream the device accepted is always a prefix of the packets' frames (the library's own fragmenter/encoders define them), equal to it whenever Ok is returned, and on the serial port flushed successfully after the last write; write/flush failures and displaced frames yield Err; delays (would-block bursts up to 300 000, also on USART flush) and partial writes alone never make the call fail or block. Found and led to the repair of the short-write defect (known_findings.txt).",
          "Trusted: device models return only values the real drivers can return; the expected stream is defined by the library's own to_frames/encoders. Not a proof beyond the enumerated list.",
          "DESIGN.md §5 S-SEND / C14"),
  "C07": ("exploration",
@@ -54,7 +54,7 @@ CHECKS = {
          "DESIGN.md §5 S-NODE / C16"),
  "C17": ("exploration",
          "deterministic simulation: generated register/remove histories interleaved with reveal deliveries on two independent paths, final registry sweep",
-         "Seeded exploration of registry-heavy histories (remove from the middle, id reuse, stale and never-issued ids). Ids returned by add must differ from every live id; after every registry operation a reveal delivery through tick and through loop-back send determines the live set (a handler is live if it fires on either path; a handler that fires on neither is attributed by asking the registry); removed handlers must never fire again on any delivery of the run; removing unregistered ids must report NoSuchHandler and change nothing; at the end every id ever seen is removed once more and must answer as the model says.",
+         "Seeded exploration of registry-heavy histories (remove from the middle, id reuse, stale and never-issued ids). Ids returned by add must differ from every live id; after every registry operation a reveal delivery through tick and through loop-back send determines the live set (a handler is live if it fires on either path; a handler that fires on neither is attributed by asking the registry); removed handlers must never fire again on any delivery of the run; removing unregistered ids (incl. ids that alias a live id under truncation or masking) must report NoSuchHandler and change nothing; tables of up to 70 handlers; a twin node that gets a delivery after every registry operation separates handlers lost to the operation history from static dispatch defects; at the end every id ever seen is removed once more and must answer as the model says.",
          "Trusted: the registry model (a map); liveness is observed through deliveries and through remove's own answer. Not a proof.",
          "DESIGN.md §5 S-NODE / C17"),
  "C18": ("exploration",
